@@ -233,17 +233,25 @@ def checkLeak (P : Prog) (live : Blk → List Leaf) (b : Blk) (s : Scope) (x : L
     | none => .error .crash
     | some u => if P.lin x && !u && !usedLater then .error .placeNotUsed else .ok ()
 
-/-- the body of `for bb, scope in scopes.items()`; the last two loops mirror `live_places_row`
-    for the input row and the output rows (`pred_scope[x]` raises `KeyError` for a live place
-    that is in no scope) -/
-def checkEdges (P : Prog) (live : Blk → List Leaf) (b : Blk) (s : Scope) : R Unit := do
-  (P.succ b).forM fun c => (live c).forM (checkLiveUsed P s)
-  (s.vars ++ s.parent).forM (checkLeak P live b s)
+/-- `live_places_row(bb, bb.sig.input_row, scope.parent_scope)`: `pred_scope[x]` raises `KeyError`
+    for a live place that is not in the parent scope (entry and exit keep their original rows) -/
+def checkInRow (P : Prog) (live : Blk → List Leaf) (b : Blk) (s : Scope) : R Unit :=
   if b = P.entry ∨ b = P.exit then .ok ()
   else (live b).forM fun x => if s.parent.contains x then .ok () else .error .crash
+
+/-- `live_places_row(succ, output_row, scope)` for every successor -/
+def checkOutRows (P : Prog) (live : Blk → List Leaf) (b : Blk) (s : Scope) : R Unit :=
   (P.succ b).forM fun c =>
     if c = P.entry ∨ c = P.exit then .ok ()
     else (live c).forM fun x => if s.vars.contains x || s.parent.contains x then .ok () else .error .crash
+
+/-- the body of `for bb, scope in scopes.items()`: the two checks, then the construction of the
+    refined signature (which can only fail internally) -/
+def checkEdges (P : Prog) (live : Blk → List Leaf) (b : Blk) (s : Scope) : R Unit := do
+  (P.succ b).forM fun c => (live c).forM (checkLiveUsed P s)
+  (s.vars ++ s.parent).forM (checkLeak P live b s)
+  checkInRow P live b s
+  checkOutRows P live b s
 
 /-- `live_default`: the borrowed leaves when the exit block is unreachable, else nothing -/
 def liveDefault (P : Prog) : List Leaf := if P.exitReachable then [] else P.borrowedLeaves
@@ -265,6 +273,26 @@ def checkCfg (P : Prog) : R Unit := do
   match Dataflow.liveRun g headSched (liveFuel P tbl) (Dataflow.liveInit g (liveDefault P)) with
   | none => .error .fuel
   | some t => tbl.forM fun (b, s) => checkEdges P t.vals b s
+
+/-- the place-level `live_before` that `checkCfg` computes on the way (for the correspondence:
+    the real checker exposes it as the refined input rows of the result CFG) -/
+def liveOf (P : Prog) : Option (List (Blk × List Leaf)) :=
+  match scopes P with
+  | .error _ => none
+  | .ok tbl =>
+    let g := flowCfg P (lookup tbl)
+    match Dataflow.liveRun g headSched (liveFuel P tbl) (Dataflow.liveInit g (liveDefault P)) with
+    | none => none
+    | some t => some (P.blocks.map fun b => (b, t.vals b))
+
+/-- executable form of `Prog.WF` (Spec/C06.lean): the shape of the CFGs the checker receives;
+    the driver checks it on every extracted CFG -/
+def Prog.wfb (P : Prog) : Bool :=
+  P.blocks.contains P.entry &&
+  P.blocks.all (fun b => (P.succ b).all fun c => P.blocks.contains c) &&
+  P.blocks.all (fun b => !(P.succ b).contains P.entry) &&
+  (P.entry != P.exit) && (P.stmts P.exit).isEmpty && (P.succ P.exit).isEmpty &&
+  P.blocks.all (fun b => b == P.exit || !(P.succ b).isEmpty)
 
 def accepts (P : Prog) : Bool :=
   match checkCfg P with
